@@ -53,7 +53,17 @@ def run_bounded(name, tier, seed):
         res['reason'] = 'bounded-check driver does not build against the current tree: ' + (err or '')[-1500:]
         return res
     try:
-        r = DR.run_bounded(exe, name, bound, shards)
+        try:
+            r = DR.run_bounded(exe, name, bound, shards)
+        except FileNotFoundError:
+            # the private copy of the driver (or its scratch directory) disappeared under us: build it again, once
+            with _lock:
+                if not (_built.get('exe') and os.path.exists(_built['exe'])):
+                    _built.clear()
+            exe, err = _driver()
+            if exe is None:
+                raise
+            r = DR.run_bounded(exe, name, bound, shards)
     except DR.DriverCrash as ex:
         # the process died (stack overflow / abort / endless loop killed by the timeout): "returns normally" is violated
         res['status'] = 'fail'
@@ -68,7 +78,8 @@ def run_bounded(name, tier, seed):
         return res
     except Exception as ex:
         res['status'] = 'undecided'
-        res['reason'] = 'bounded check %s could not run: %r' % (name, ex)
+        import traceback
+        res['reason'] = 'bounded check %s could not run: %r | %s' % (name, ex, traceback.format_exc()[-700:].replace('\n', ' / '))
         return res
     res['cases'] = r['cases']
     res['nontrivial'] = r.get('nontrivial', 0)
